@@ -15,6 +15,52 @@ CLAIMS = {
              'string equality and raise; z3. Inputs are ints / strs as the property quantifies (floats etc. not modelled). '
              'A native enumeration of -50..150 and all labels re-checks the same contracts on the real functions every run.',
         technique='contract-based deductive verification: VCs generated from the real source by symbolic execution (PyVC), discharged by z3; native replay of counterexamples'),
+
+    'C15': dict(category='proof', design_ref='DESIGN.md section 3 C15, Appendix A.2',
+        text='format_datetime, parse_into_datetime, to_enum and TimestampProperty.clean are verified against contracts taken from the property statement for every '
+             'integer-microsecond instant, every whole-second UTC offset, naive or aware, and all 6 (precision, constraint) pairs: canonical 4-2-2T2:2:2 text of the '
+             'UTC instant, exactly the required fraction digits, truncation never rounding; fixed point and monotonicity are z3 lemmas over the two contracts. '
+             'A bounded native comparison with an independent integer-arithmetic formatter re-checks the same statement (thorough: all 10^6 microsecond values).',
+        note='Assumed (probed natively every run): pytz localize/astimezone, datetime.replace/strptime/civil fields, "{:0Nd}".format, STIXdatetime.__new__; UTC offsets are whole '
+             'seconds (sub-second offsets, which Python permits, are outside the contract). DigitStr theory and PyVC encoding are trusted, guarded by the native cross-check.',
+        technique='contract-based deductive verification (PyVC + z3, DigitStr/LIA theory) with native replay; bounded native stand-in as cross-check'),
+    'C05': dict(category='proof', design_ref='DESIGN.md section 3 C05, Appendix A.3',
+        text='_fudge_modified is proved for all pairs of instants and both precision rules (the clock is an unconstrained integer); new_version is verified against a slice '
+             'contract with callee contracts: precondition of _fudge_modified from the precision constraint computed on the path, modified handed to the constructor strictly '
+             'later at serialization precision, RevokeError / UnmodifiablePropertyError conditions (loop invariant), constructor arguments = original overridden by the change '
+             'set minus None; revoke forwards exactly revoked=True; chain monotonicity by transitivity. Composition with the real constructors is bounded (clock substituted).',
+        note='Slice contract: the object is a map with 7 declared keys plus arbitrary others; class constructor, _check_versionable_object, deepcopy under assumed contracts; '
+             'datetime overflow at year 9999 excluded. The bounded part (8 object kinds x clock offsets x change sets x chains) is labelled bounded in the evidence.',
+        technique='contract-based deductive verification (PyVC + z3) of the ordering core; bounded native composition with a substituted clock'),
+    'C14': dict(category='proof', design_ref='DESIGN.md section 3 C14, 2.13',
+        text='Every call site in the tree of a function with a version/allow_custom/interoperability parameter is bound to the callee\'s real signature and checked against '
+             'the parameter sorts, and callers must hand on their own version (finite-domain obligations); parse, dict_to_stix2, detect_spec_version, memory._add and '
+             'filesystem._check_object_from_file are symbolically executed against routing contracts with ghost "parsed-under" records. 14 entry points x dictionaries x versions are compared natively with a direct parse.',
+        note='Sorts of actuals are derived from role-named parameters, literals and self.<role>; other actual expressions are listed as not decided (16 on the current tree). '
+             'TAXII paths are covered by call-site obligations only. Constructors honour allow_custom/interoperability: assumed here, checked by C02/C04.',
+        technique='call-site precondition checking against real signatures (AST + z3) and contract-based symbolic execution (PyVC); bounded native entry-point comparison'),
+    'C17': dict(category='other', design_ref='DESIGN.md section 3 C17',
+        text='Proved: detect_spec_version, dict_to_stix2 and parse cannot let KeyError/AttributeError/IndexError escape for ANY JSON value (uninterpreted JSON sort; every raw-input '
+             'access is an obligation site; counterexamples are concretised to JSON and replayed). Bounded: fault enumeration over every parseable type x every slot to depth 3 x '
+             'wrong-kind values, whole-input junk, constructors of all classes; registries compared with a snapshot. The composition through _STIXBase.__init__ is only bounded, hence "other".',
+        note='Termination / RecursionError on deep nesting not decided. Constructors raising only Family errors is established by enumeration (bounded), not proof.',
+        technique='contract-based deductive verification over a JSON sort (PyVC + z3) for the raw-input functions; exhaustive small-scope fault enumeration for the rest'),
+    'C12': dict(category='other', design_ref='DESIGN.md section 3 C12, 2.13',
+        text='Proved: Filter._check_property == documented semantics of all 8 operators; apply_common_filters yields exactly the objects matching every filter; _update_allow and '
+             'AuthSet; SOUNDNESS of _find_search_optimizations for an arbitrary ghost object (loop invariant, image sets); re-iterable query at every call site; monotonicity and '
+             'conjunction=intersection lemmas. Bounded: filter sets x stores x 4 delivery routes against an independent reference. _check_filter recursion and directory matching are bounded only.',
+        note='Filter values on type/id are strings or iterables of strings; get() under attached filters is read permissively (newest-if-matching or newest-matching).',
+        technique='contract-based deductive verification (PyVC + z3: arrays as sets, quantified prefix invariants, ghost object); bounded end-to-end stand-in'),
+    'C11': dict(category='other', design_ref='DESIGN.md section 3 C11',
+        text='Proved: _ObjectFamily.add preserves "latest_version carries the greatest modified time; all_versions gains exactly the added version" over the whole key set; memory._add '
+             'routing. Bounded: add histories (length <= 3/4) x 6 input forms on MemoryStore and FileSystemStore vs a list model, save/load round trip, file-name injectivity.',
+        note='OS semantics assumed; no concurrency. Known finding (dictionary-kept custom objects compare timestamps as text) is listed in known_findings.json.',
+        technique='contract-based deductive verification of the representation invariant (PyVC + z3); bounded history enumeration against a list model'),
+    'C18': dict(category='other', design_ref='DESIGN.md section 3 C18',
+        text='Proved: newest-version selection loop of CompositeDataSource.get (prefix invariant, None iff no answers), order independence (max symmetric/associative), utils.deduplicate '
+             '(one entry per distinct version key). Bounded: partitions over 1-3 members in every order, composite-attached filters, relationship graphs x options through store/source/composite/Environment.',
+        note='The member loop of get() is abstracted (answers arbitrary); relationships()/related_to() filter-list construction is covered by the bounded part only.',
+        technique='contract-based deductive verification of the selection and de-duplication loops (PyVC + z3); bounded federation/navigation enumeration'),
 }
 NOT_BUILT = 'contracts stated in DESIGN.md, check not built yet'
 
